@@ -35,8 +35,8 @@ m = {
     "version": 1,
     "setup_cmd": "cd /verif/lean && lake build " + " ".join(sorted({m for P in PROPS.values() for m in P["lean_modules"]}) + sorted({HARNESSES[h].get("driver", "astria-driver") for P in PROPS.values() for h in P["harnesses"]})),
     "hooks": {
-        "guard": "cargo feature `verif` (per hooked crate) together with cfg(test)",
-        "enable": "cargo test --offline -p <crate> --features verif --lib --no-run, then the test binary is run with `verif::driver --exact` (bin/check does this); the hook line is `#[cfg(all(test, feature = \"verif\"))] #[path = \"/verif/harness/<crate>/mod.rs\"] mod verif;`",
+        "guard": "cargo features `verif` (astria-merkle, astria-core, astria-composer, astria-conductor) and one feature per harness `verif-ledger`, `verif-abci`, `verif-ve`, `verif-mempool`, `verif-grpc` (astria-sequencer), `verif-batch`, `verif-crash` (astria-sequencer-relayer), `verif-executor`, `verif-blobs` (astria-conductor), each together with cfg(test); all off by default",
+        "enable": "cargo test --offline -p <crate> --features <feature> --lib --no-run, then the test binary is run with `<module>::driver --exact` (bin/check does this; table of crate / feature / module / harness file in docs/SLICE_GUIDE.md); each hook is one line `#[cfg(all(test, feature = \"<feature>\"))] #[path = \"/verif/harness/<crate>/<file>.rs\"] mod <name>;` plus the feature in the crate's Cargo.toml",
         "baseline_off_cmd": "cd /repo && cargo nextest run --workspace --no-fail-fast --test-threads 8 --offline",
         "source_commits": hook_commits,
         "add_only": True,
